@@ -137,7 +137,7 @@ class ParCtx:
             elif r.kind == 'call' and r.data.callee and r.data.callee.is_('std::clone::Clone::clone'):
                 res.add('?')
             elif r.kind == 'param' and self.prn is not None and r.body.path == self.prn.path \
-                    and r.data == 1 and r.fields[:1] in (('empty_send',), ('done_recv',)):
+                    and r.data == 1 and r.fields[:1] and r.fields[0] in self.struct_fields:
                 res.add(self.struct_fields.get(r.fields[0], '?'))
             else:
                 res.add('?')
@@ -195,9 +195,11 @@ def run(prog, R):
                 cx.struct_fields[name] = 'empty.send'
             elif r.kind == 'call' and r.data is cx.chan_done and r.fields[:1] == ('1',):
                 cx.struct_fields[name] = 'done.recv'
-    R.add('PAR-9', sc, 'struct-fields', cx.struct_fields.get('empty_send') == 'empty.send'
-          and cx.struct_fields.get('done_recv') == 'done.recv', site(sc, rsets_stmt.line),
-          'ParallelRecordsets{empty_send<-recycle sender, done_recv<-result receiver}: %s' % cx.struct_fields)
+    # (whatever the private fields are called:) one field holds the recycle sender, one the result receiver, and the
+    # remaining one is the data set currently lent to the consumer
+    R.add('PAR-9', sc, 'struct-fields', sorted(cx.struct_fields.values()) == ['done.recv', 'empty.send'], site(sc, rsets_stmt.line),
+          'ParallelRecordsets{recycle sender, result receiver, current set}: %s' % cx.struct_fields)
+    cx.cur_field = next((n_ for n_ in fld if n_ not in cx.struct_fields), 'current_recordset')
 
     # ---------------- PAR-8
     # (the capacity of the *result* channel does not bound the number of sets and is not constrained)
@@ -453,7 +455,7 @@ def run(prog, R):
         pb, b, t = repl[0]
         dst = cx.prov(pb, t.args[0])
         src = cx.prov(pb, t.args[1])
-        ok_dst = bool(dst) and all(r.is_param(cx.prn.key, 1, ('current_recordset',)) for r in dst)
+        ok_dst = bool(dst) and all(r.is_param(cx.prn.key, 1, (cx.cur_field,)) for r in dst)
         ok_src = bool(src) and all(r.is_call('std::sync::mpsc::Receiver::recv') and r.fields[-1:] == ('0',) for r in src)
         R.add('PAR-5', pb, 'install-received-set', ok_dst and ok_src, site(pb, t.line),
               'replace(%s, %s)' % ('; '.join(r.describe() for r in dst), '; '.join(r.describe() + str(r.fields) for r in src)))
@@ -471,7 +473,7 @@ def run(prog, R):
                         found = True
                         r0 = cx.prov(pb, ops[0])
                         r1 = cx.prov(pb, ops[1])
-                        ok0 = bool(r0) and all(x.is_param(cx.prn.key, 1, ('current_recordset',)) for x in r0)
+                        ok0 = bool(r0) and all(x.is_param(cx.prn.key, 1, (cx.cur_field,)) for x in r0)
                         ok1 = bool(r1) and all(x.is_call('std::sync::mpsc::Receiver::recv') and x.fields[-1:] == ('1',) for x in r1)
                         R.add('PAR-5', pb, 'returns-current-and-received-output', ok0 and ok1 and pb.cfg.dominates(b, blk.idx),
                               site(pb, s.line), 'Ok((%s, %s))' % ('; '.join(x.describe() for x in r0), '; '.join(x.describe() + str(x.fields) for x in r1)))
